@@ -138,8 +138,14 @@ class HwCheck:
     def base(self): return self.ts.comb_constraints() + self.assumes
     def init_eqs(self):
         return self.ts.init_constraints() + [g[0] == K(g[1], g[0].size()) for g in self.ghosts.values()]
-    def _solve(self, cs, timeout_ms=None, order=("api", "z3old", "cvc5")):
+    def _solve(self, cs, timeout_ms=None, order=None):
+        order = order or getattr(self, "solver_order", ("api", "z3old", "cvc5"))
         st, m, be, secs = solvers.solve(cs, timeout_ms or self.timeout_ms, order=order)
+        if st == "sat" and m is None:
+            # a CLI back end answered sat: ask the API for a model (counterexamples are needed for replay)
+            st2, m2, be2, s2 = solvers.solve(cs, 4 * (timeout_ms or self.timeout_ms), order=("api",))
+            if st2 == "sat": return st2, m2, be + "+" + be2, secs + s2
+            if st2 == "unsat": return "unknown", None, be + " vs " + be2 + " DISAGREE", secs + s2
         return st, m, be, secs
     def _allvars(self, extra=()):
         vs = {}
